@@ -323,6 +323,62 @@ def exact_predicate(name, d: Rat):
             'lt': make_cmp('<', d), 'le': make_cmp('<=', d)}[name]
 
 
+def _num_eval(ctx, rat, env):
+    """exact value (Fraction) of a canonical term at a point: env maps atoms to Fractions; function atoms (abs, fabs, min, max) are
+    evaluated on their evaluated arguments"""
+    def atom(a):
+        if a in env:
+            return env[a]
+        if a in ctx.defs:
+            f, args = ctx.defs[a]
+            vals = [_num_eval(ctx, x, env) for x in args]
+            if f in ('abs', 'fabs'):
+                return abs(vals[0])
+            if f == 'min':
+                return min(vals)
+            if f == 'max':
+                return max(vals)
+        raise KeyError(a)
+
+    def poly(p_):
+        tot = Fraction(0)
+        for mono, c in p_.t.items():
+            v = Fraction(c)
+            for a, e in mono:
+                v *= atom(a) ** e
+            tot += v
+        return tot
+    den = poly(rat.d)
+    if den == 0:
+        raise ZeroDivisionError
+    return poly(rat.n) / den
+
+
+def _guard_holds(ctx, g, env):
+    v = _num_eval(ctx, g.rat, env)
+    r = {'<': v < 0, '<=': v <= 0, '==': v == 0, '!=': v != 0}[g.key[0]]
+    return r if g.pol else not r
+
+
+def _decide_by_points(ctx, paths, want, env_of, points):
+    """the boolean function coded by `paths` [(cmp guards, truth)] against the specified predicate `want`, at every point of
+    `points` (the breakpoints of the piecewise predicate, the midpoints and beyond): -> (ok, why)"""
+    for d in points:
+        env = env_of(d)
+        try:
+            hits = [t for gs, t in paths if all(_guard_holds(ctx, g, env) for g in gs)]
+            spec = _guard_holds(ctx, want, env)
+        except (KeyError, ZeroDivisionError) as e:
+            return None, f'predicate not evaluable at a point ({e!r})'
+        if not hits:
+            return False, f'no path answers for a difference of {d} (in the left unit)'
+        if any(h != hits[0] for h in hits):
+            return False, f'paths disagree for a difference of {d}'
+        if hits[0] != spec:
+            return False, f'for a difference of {float(d):g} (left unit; tolerance {float(points[-1]) / 1e6 if False else "T"}) the method answers {hits[0]}, specified {spec}'
+    return True, ''
+
+
 def check_cmp(model, rep, sx: SX, tables):
     ctx = sx.ctx
     kinds = sorted(model.quantity_kinds())
@@ -344,12 +400,15 @@ def check_cmp(model, rep, sx: SX, tables):
             for right in kinds:
                 related = SUBKINDS.get(left, left) == SUBKINDS.get(right, right)
                 cons = f'{m.cls}.{dunder}[{left},{right}]'
+                sx.cmp_sides = []
                 try:
                     outs = sx.run(m.node, m.module, m.cls, Q(left, S, U(sym='a')), {
                         [a.arg for a in m.node.args.args][1]: Q(right, O, U(sym='b'))})
                 except CannotDecide as e:
                     rep.cannot('C05.cmp', cons, str(e), m.loc)
+                    sx.cmp_sides = None
                     continue
+                sides, sx.cmp_sides = sx.cmp_sides, None
                 rep.inspect()
                 n_inst += 1
                 rets = [o for o in outs if o.kind == 'return']
@@ -364,58 +423,98 @@ def check_cmp(model, rep, sx: SX, tables):
                     continue
                 Fa, Fb = Rat.atom(f'F[{fam}:a]'), Rat.atom(f'F[{fam}:b]')
                 ok, why, locline = True, '', m.node.lineno
+                T = None
+                if tol_node is not None:
+                    from sa.units import const_fold
+                    T = const_fold(tol_node)
+                if T is None or not T.is_const() or not (0 < T.const_value() <= Fraction(1, 10 ** 6)):
+                    rep.violation('C05.cmp', cons, 'comparison tolerance is not a small positive constant', m.loc)
+                    continue
+                Tv_ = T.const_value()
+                # the answer as a function of the difference, decided per unit branch on the breakpoints of the piecewise predicate
+                branches = {True: [], False: []}
+                bad_value = None
                 for o in rets:
-                    same_unit = any(g.kind == 'eq' and g.pol and set(g.key) == {'unit-of(a)', 'unit-of(b)'}
-                                    for g in o.state.guards)
+                    same_unit = any(g.kind == 'eq' and g.pol and set(g.key) == {'unit-of(a)', 'unit-of(b)'} for g in o.state.guards)
+                    known_diff = any(g.kind == 'eq' and not g.pol and set(g.key) == {'unit-of(a)', 'unit-of(b)'} for g in o.state.guards)
+                    cg = [g for g in o.state.guards if g.kind == 'cmp']
                     v = o.value
                     if isinstance(v, Bv):
-                        ok, why, locline = False, f'returns the constant {v.b}', o.loc
+                        outs_ = [(cg, v.b)]
+                    elif isinstance(v, Bsym) and v.guard.kind == 'cmp':
+                        outs_ = [(cg + [v.guard], True), (cg + [v.guard.negate()], False)]
+                    else:
+                        bad_value, locline = f'returns {sx.show(v)[:80]}', o.loc
                         continue
-                    if not isinstance(v, Bsym) or v.guard.kind != 'cmp':
-                        ok, why, locline = False, f'returns {sx.show(v)[:80]}', o.loc
+                    for b_ in ((True,) if same_unit else ((False,) if known_diff else (True, False))):
+                        branches[b_] += outs_
+                    # unit-blindness of the predicate (different units)
+                    if not same_unit:
+                        for g in [x for x in (cg + ([v.guard] if isinstance(v, Bsym) else []))]:
+                            leftover = {a for a in g.rat.atoms() if a.startswith('F[')}
+                            for a, (f, args) in list(ctx.defs.items()):
+                                if a in g.rat.atoms():
+                                    for x in args:
+                                        leftover |= {b for b in x.atoms() if b.startswith('F[')}
+                            if leftover:
+                                g1 = make_cmp(g.key[0], ctx.subst(g.rat, {a: Rat.const(1) for a in leftover}))
+                                g2 = make_cmp(g.key[0], ctx.subst(g.rat, {a: Rat.const(1000) for a in leftover}))
+                                if not g1.same(g2):
+                                    key = f'{m.cls}.{dunder}'
+                                    if key not in blind_reported:
+                                        blind_reported.add(key)
+                                        rep.violation('C05.blind', key,
+                                                      'the comparison tolerance is absolute in the left operand\'s unit: the '
+                                                      'result depends on the unit the operands are expressed in '
+                                                      f'(`{g.show(ctx)[:140]}`)', f'{m.module}:{o.loc}')
+                if bad_value:
+                    rep.violation('C05.cmp', cons, bad_value, f'{m.module}:{locline}')
+                    continue
+                # the tolerance must meet the DIFFERENCE of the two values: added to (or subtracted from) a value-sized operand it is
+                # absorbed by rounding as soon as |value| >= 2**14 (1e-12 is below half an ulp there), and equal magnitudes compare unequal
+                absorbed = None
+                for node_, op_, lt, rt in sides:
+                    for side in (lt, rt):
+                        ones = {a: Rat.const(1) for a in (side.n.atoms() | side.d.atoms()) if a.startswith('F[')}
+                        side = ctx.reduce(ctx.subst(side, ones) if ones else side)
+                        if side.d.is_const() and len(side.n.t) > 1 and () in side.n.t:
+                            c0 = abs(side.n.t[()] / side.d.const_value())
+                            if c0 == Tv_ and (lt - rt).n.atoms():
+                                others = Rat(side.n) - Rat.const(side.n.t[()])
+                                diff_like = 'S' in others.atoms() and 'O' in others.atoms()
+                                if not diff_like:
+                                    absorbed = (getattr(node_, 'lineno', m.node.lineno), ctx.show(side)[:80])
+                if absorbed:
+                    rep.violation('C05.cmp', cons, f'the tolerance is added to an operand (`{absorbed[1]}`) instead of being compared with the '
+                                  f'difference of the operands: for magnitudes of 2**14 and more the sum rounds back to the operand and quantities '
+                                  f'denoting the same magnitude compare unequal', f'{m.module}:{absorbed[0]}')
+                    continue
+                pts = [Fraction(-1), -2 * Tv_, -Tv_, -Tv_ / 2, Fraction(0), Tv_ / 2, Tv_, 2 * Tv_, Fraction(1), Fraction(-10 ** 6), Fraction(10 ** 6)]
+                for same_unit, paths in branches.items():
+                    if not paths:
                         continue
-                    g = v.guard
-                    if same_unit:
-                        gr = make_cmp(g.key[0], ctx.subst(g.rat, {f'F[{fam}:b]': Fa}))
-                        want = exact_predicate(name, S - O)
-                        if not gr.same(want):
-                            ok, why, locline = False, (f'same-unit branch decides `{gr.show(ctx)}`, specified '
-                                                       f'`{want.show(ctx)}`'), o.loc
-                        continue
-                    # different units: predicate on d = (S - O)/F[a] with tolerance T
-                    T = None
-                    if tol_node is not None:
-                        from sa.units import const_fold
-                        T = const_fold(tol_node)
-                    if T is None or not T.is_const() or not (0 < T.const_value() <= Fraction(1, 10 ** 6)):
-                        ok, why, locline = False, 'comparison tolerance is not a small positive constant', o.loc
-                        continue
-                    d = (S - O) / Fa
-                    want = spec_predicate(name, d, T, ctx)
-                    if not g.same(want):
-                        # accept a unit-blind formulation too (e.g. relative tolerance): decided below
-                        exact = exact_predicate(name, S - O)
-                        if not g.same(exact):
-                            ok, why, locline = False, (f'different-unit branch decides `{g.show(ctx)[:160]}`, specified '
-                                                       f'`{want.show(ctx)[:160]}`'), o.loc
-                    # unit-blindness of the predicate
-                    leftover = {a for a in g.rat.atoms() if a.startswith('F[')}
-                    for a, (f, args) in list(ctx.defs.items()):
-                        if a in g.rat.atoms():
-                            for x in args:
-                                leftover |= {b for b in x.atoms() if b.startswith('F[')}
-                    if leftover:
-                        # does the predicate really depend on it?  scale test on the canonical difference
-                        g1 = make_cmp(g.key[0], ctx.subst(g.rat, {a: Rat.const(1) for a in leftover}))
-                        g2 = make_cmp(g.key[0], ctx.subst(g.rat, {a: Rat.const(1000) for a in leftover}))
-                        if not g1.same(g2):
-                            key = f'{m.cls}.{dunder}'
-                            if key not in blind_reported:
-                                blind_reported.add(key)
-                                rep.violation('C05.blind', key,
-                                              'the comparison tolerance is absolute in the left operand\'s unit: the '
-                                              'result depends on the unit the operands are expressed in '
-                                              f'(`{g.show(ctx)[:140]}`)', f'{m.module}:{o.loc}')
+
+                    def env_of(d, same_unit=same_unit):
+                        # generic operands with (S - O)/F[a] = d; in the different-unit branch the right unit's factor differs from the
+                        # left one (a comparison that forgets to convert the right operand then sees another difference)
+                        fa = Fraction(2)
+                        return {'S': d * fa + Fraction(7), 'O': Fraction(7), f'F[{fam}:a]': fa, f'F[{fam}:b]': fa if same_unit else Fraction(3)}
+                    want = exact_predicate(name, S - O) if same_unit else spec_predicate(name, (S - O) / Fa, T, ctx)
+                    r_ok, r_why = _decide_by_points(ctx, paths, want, env_of, pts)
+                    if r_ok is None:
+                        rep.cannot('C05.cmp', cons, r_why, m.loc)
+                        ok = None
+                        break
+                    if not r_ok:
+                        # accept a unit-blind exact formulation in the different-unit branch too (decided above by C05.blind)
+                        if not same_unit:
+                            r2, _ = _decide_by_points(ctx, paths, exact_predicate(name, S - O), env_of, pts)
+                            if r2:
+                                continue
+                        ok, why = False, f'{"same" if same_unit else "different"}-unit branch: {r_why}'
+                        break
+                if ok is None:
+                    continue
                 rep.decide(ok, 'C05.cmp', cons, why, loc=f'{m.module}:{locline}')
         key = f'UnitBase.{dunder}'
         if key not in blind_reported and model.find_member('UnitBase', dunder):
